@@ -470,6 +470,31 @@ func C12(r *vf.Run) {
 					}
 					r.Eval(1)
 				}
+				if i%4 == 3 {
+					// the same through an emulator.System: its own methods (SetPC, GetPC, whatever else it has)
+					// are no reset either
+					S := getSysRig()
+					ms := img.Clone()
+					S.load(s, false, g, ms)
+					stopped := false
+					var called []string
+					for j := 0; j < depth+6; j++ {
+						var st bool
+						if pan := vf.Try(func() { _, st = S.s.CPU.Step() }); pan != nil {
+							break
+						}
+						if stopped && !st {
+							r.Fail("stopped-sticky:system", fmt.Sprintf("a System's CPU executed STP, then %v were called on the System, and Step reports stopped=false", called), nil)
+							break
+						}
+						if st {
+							stopped = true
+							called = append(called, callNonResetMethods(S.s, map[string]bool{"CreateEmulator": true, "RunUntil": true}, g)...)
+							w.cells["stp:system-methods-called-while-stopped"]++
+						}
+					}
+					putSysRig(S)
+				}
 				w.cells[fmt.Sprintf("stp-depth:%d", depth)]++
 			}
 		})
@@ -558,6 +583,11 @@ func C12(r *vf.Run) {
 						target, tclass = uint32(g.U32())&0xFFFFFF, "random"
 					default:
 						target, tclass = pcs[len(pcs)-1], "late"
+					}
+					if g.Intn(12) == 0 {
+						// a 32-bit value that is no bus address (some bit above 23 set): the program counter can
+						// never equal it, although its low 24 bits may be a place the program visits
+						target, tclass = target|uint32(1+g.Intn(255))<<24, "beyond-24-bits"
 					}
 					var budget uint64
 					bclass := ""
